@@ -231,6 +231,8 @@ def run(ctx):
     if n8 < 6:
         raise AnalysisBroken("only %d emitted reads of generated-code scratch slots found in orcprogram-x86.c" % n8)
 
+    d9_param_staging(db, rep)
+
     # D6: registers parked around a scalar fallback come back unswapped (they hold the array pointers)
     from x86enc import check_save_restore
     xf = [f for f in db.all_functions() if f.relfile.startswith("orc/orcrules-") and ("sse" in f.relfile or "mmx" in f.relfile or "avx" in f.relfile)]
@@ -667,3 +669,43 @@ def d34(db, rep):
                 rep.check(ok, "D4-EXEC-SLOTS", where(f), "slot:%s" % slot, "skeleton writes executor slot %s (allowed)" % slot,
                           "%s makes generated code write OrcExecutor.%s, which is not one of the scratch slots" % (f.name, slot), line=c.line)
     rep.floor("D4-EXEC-SLOTS", 20)
+
+
+def d9_param_staging(db, rep):
+    """D9: the emulator stages a 4-byte parameter as a 64-bit value that the offset / resampling loads use as a SIGNED element
+    index (array[i + offset]).  A negative parameter must therefore arrive sign-extended: on its way from the executor's int
+    slot to the 64-bit argument of the staging call the value must not pass through an unsigned type narrower than 64 bits
+    (that zero-extends: -1 becomes +4294967295 and the load goes 4 GiB past the array).  Pure type-level rule; the halves
+    of an 8-byte parameter, which are OR-ed together, are the opposite case and are judged by the widening rule (C02 D4)."""
+    from widen import INT_TYPES
+    ee = db.func("orc_executor_emulate", "orcexecutor")
+    rep.saw(ee)
+    n = 0
+    for c in ee.calls("load_constant"):
+        a = c.args()
+        if len(a) < 3:
+            continue
+        v = a[2]
+        top = strip_casts(v)
+        if top is not None and top.k == "BinaryOperator" and top.op == "|":
+            continue                                    # two halves assembled: widening rule
+        src = [x for x in v.walk() if x.k == "ArraySubscriptExpr" and (access_path(x.c[0]) or "").endswith("->params")]
+        if not src:
+            continue
+        n += 1
+        bad = None
+        x = src[0]
+        while x is not None and x is not v.parent:
+            if x.k == "CStyleCastExpr":
+                t = INT_TYPES.get((x.get("toty") or "").replace("const ", "").strip())
+                if t is not None and not t[1] and t[0] < 64:
+                    bad = x.get("toty")
+            if x is v:
+                break
+            x = x.parent
+        rep.check(bad is None, "D9-PARAM-STAGING", where(ee), "load_constant(%s)" % unparse(v)[:50],
+                  "the int parameter slot reaches the 64-bit staging value by sign extension",
+                  "orc_executor_emulate stages a 4-byte parameter through `(%s)`: a negative run-time offset or start position is zero-extended to "
+                  "about +2^32 and loadoffX / ldresnearX / ldreslinX, which use it as a signed element index, read gigabytes past the source array" % bad, line=c.line)
+    if n < 1:
+        raise AnalysisBroken("orc_executor_emulate: staging of 4-byte parameters (load_constant (.., 8, ex->params[..])) not found")
